@@ -314,6 +314,8 @@ def c13_jobs(tier):
          dict(harness="sym_glue", pattern=r"^sym/n(6k1m3|4k2m3)/LargestMagn/LargestAlge/maxit1/ic$|^sym/n6k2m5/LargestMagn/LargestAlge/maxit0/ic$", label="whole runs under ASan/UBSan (symmetric)", deadline=200, sanitize=True),
          dict(harness="gen_glue", pattern=r"^gen/n5k1m3/LargestImag/LargestMagn/maxit1/ic$|^gen/n6k2m5/LargestMagn/LargestMagn/maxit0/ic$", label="whole runs under ASan/UBSan (general)", deadline=200, sanitize=True)]
     q.append(dict(harness="c07_krylov", pattern=r"^lanczos-step/n3/k2/zero$|^arnoldi-step/n3/k[12]/regular$|^(arnoldi|lanczos)-init/n2/v[01]$", label="definedness (division / sqrt) obligations inside the real Krylov kernels (shared with C07)", deadline=200))
+    q.append(dict(harness="c06_poison", pattern=r"^audit/", label="real solvers + real kernels on 11 degenerate concrete operators with an auditing operator (buffers, work bound, finiteness) under ASan/UBSan",
+                  deadline=200, sanitize=True))
     if tier == "quick":
         return q
     return q + [dict(harness="sym_glue", pattern=r"^sym/n(6k2m5|7k1m6|5k3m4)/LargestMagn/LargestAlge/maxit1/ic$", label="whole runs, larger sizes (symmetric) [budgeted]", deadline=700, sanitize=True, budget=True),
@@ -327,7 +329,10 @@ SPECS["C13"] = dict(
                  "with ncv<=8 and every nconv in [0,nev): 1 <= k < ncv, k >= nev, no conjugate pair split, compress/refactorize called inside their contracts, the factorization is valid at ncv afterwards; "
                  "(2) whole runs of compute() over kernel contracts, harness built with Eigen's index assertions turned into exceptions and with AddressSanitizer+UBSan: any assertion, sanitizer report or "
                  "foreign exception on an explored path is a violation; operator applications <= 2+2*ncv*(maxit+1) on every path; (3) exact-arithmetic NaN/Inf sources (a divisor or radicand that can be "
-                 "0/negative) inside the real kernels are obligations of the kernel checks C07-C10, where they count as violations."),
+                 "0/negative) inside the real kernels are obligations of the kernel checks C07-C10, where they count as violations; the symbolic Krylov steps run with an operator that audits its "
+                 "arguments (valid, distinct, non-overlapping length-n buffers) on every explored path incl. the breakdown restart; (4) instance runs (enumeration, no solver verdict): the real solvers with "
+                 "the real kernels on 11 degenerate concrete operators (zero, identity, nilpotent, skew, permutation, rank-1, block diagonal, exact ties, ...) x 3 start vectors x ncv in {nev+1, nev+2, n} x maxit in "
+                 "{0,1,30} with the auditing operator under ASan/UBSan: buffers, work bound, finite results, info() in {Successful, NotConverging} or a documented exception."),
     functions=GLUE_FUNCS_SYM + GLUE_FUNCS_GEN, stubs=GLUE_STUBS, assumptions=GLUE_ASSUME,
     bounds={"quick": {"restart-size": "all legal (nev,ncv), ncv<=8, ncv-nev<=4 (restart itself for ncv<=5 / 4)", "whole runs": "(4,2,3),(6,1,3),(5,1,3) maxit 1; (6,2,5),(7,1,6) maxit 0"},
             "thorough": {"whole runs": "+ (5,3,4),(6,2,5),(6,3,5),(7,1,6),(7,2,6) maxit 1"}},
@@ -344,9 +349,9 @@ SPECS["C13"] = dict(
 # C07: Krylov factorization invariant on the real Arnoldi / Lanczos code
 def c07_jobs(tier):
     if tier == "quick":
-        return [dict(harness="c07_krylov", pattern=r"-step/n[34]/k\d/(regular|small)$|^lanczos-step/n3/k2/zero$|-init/n2/|^(arnoldi|lanczos)-init/n3/v0$|^init-zero-vector|^arnoldi-compress/n3/|^lanczos-compress/n3/m2|^lanczos-bstep/",
-                     label="one inductive step / init / compress / B-inner product, n<=4", deadline=280)]
-    return c07_jobs("quick") + [dict(harness="c07_krylov", pattern=r"-step/n[34]/k\d/(regular|small)$|^lanczos-step/n3/k2/zero$|-init/|^init-zero-vector|^arnoldi-compress/|^lanczos-compress/n[34]/m2|^lanczos-bstep/",
+        return [dict(harness="c07_krylov", pattern=r"-step/n[34]/k\d/(regular|small)$|^lanczos-step/n3/k2/zero$|-init/n2/|^(arnoldi|lanczos)-init/n3/v0$|^init-zero-vector|^arnoldi-compress/n3/|^lanczos-compress/n3/m2|^lanczos-bstep(-breakdown)?/|-2step-linear/",
+                     label="one inductive step / init / compress / B-inner product, n<=4; breakdown + regular step in one call", deadline=280)]
+    return c07_jobs("quick") + [dict(harness="c07_krylov", pattern=r"-step/n[34]/k\d/(regular|small)$|^lanczos-step/n3/k2/zero$|-init/|^init-zero-vector|^arnoldi-compress/|^lanczos-compress/n[34]/m2|^lanczos-bstep(-breakdown)?/|-2step-linear/",
                  label="single-step cases n<=4, init with tolerance obligations [budgeted]", deadline=1200, env={"VERIF_C07_TOL": "1"}, cap=(20, 120), budget=True)]
 
 
@@ -357,7 +362,8 @@ SPECS["C07"] = dict(
                  "generated constraint-free from a fixed rational orthogonal frame Qc (A = Qc Ahat Qc', Ahat symbolic in the Krylov zero pattern, V_k = Qc[:, :k], f = beta Qc[:,k]) so every valid "
                  "factorization of that size is covered up to the choice of frame; beta is a rational chosen per threshold branch (3/4 regular, 1e-9 < sqrt(eps), exactly 0 = breakdown). After the "
                  "step z3 proves entry-wise A V = V H + f e_k', V'BV = I, V'Bf = 0, H Hessenberg / symmetric tridiagonal, m_k = advertised dimension, beta^2 = f'Bf, and that the operation counter "
-                 "advanced by exactly the number of times the operator was really applied (also across breakdown restarts). Implicit restart: real compress_H/compress_V after a real single-shift QR "
+                 "advanced by exactly the number of times the operator was really applied (also across breakdown restarts). A breakdown followed by a regular step inside ONE "
+                 "factorize_from call (the per-step restart decision must not leak into the next step) is run on A = [[A11, C],[0, B0 + t v2 w']] with A11, C, t symbolic. Implicit restart: real compress_H/compress_V after a real single-shift QR "
                  "(rotation contract K5) from k = m. init(): symbolic A, numeric start vectors (the library's default vector and two others); zero / sub-threshold start vectors are rejected with "
                  "invalid_argument before the operator is applied. Division by a possibly-zero norm is a definedness obligation."),
     functions=["Arnoldi<S,Op>::init, factorize_from, expand_basis, compress_H, compress_V", "Lanczos<S,Op>::factorize_from, compress_H", "ArnoldiOp<S,Op,IdentityBOp> and ArnoldiOp<S,Op,BOp>::inner_product, "
@@ -365,7 +371,8 @@ SPECS["C07"] = dict(
     stubs=["compute_rotation := contract K5 (checked on the real code under C08)", "RandomScalar<S>::run: real generator state transition, draw mapped to a dyadic rational in [-0.5,0.5]"],
     assumptions=["exact real arithmetic", "Lanczos compress: input sub-diagonals not negligible (TridiagQR's eps-deflation paths hold only to eps level by design and are recorded, not checked)"],
     bounds={"quick": {"n": "3,4", "steps": "k -> k+1 for every k<n, regular and small beta; breakdown (beta=0) n=3", "init": "n=2 (3 vectors), n=3 default vector", "compress": "n=3, m=2,3", "B-inner product": "n=3,4",
-                      "skipped": "forced-zero tolerance obligations of init(); breakdown followed by a second step"},
+                      "two-step": "breakdown at step k=2 followed by a regular step inside one factorize_from call, n=4, A = [[A11, C],[0, B0 + t v2 w']] with A11, C, t symbolic (9 symbols; "
+                      "every residual norm rational by construction)", "skipped": "forced-zero tolerance obligations of init(); two-step breakdown with generic symbolic blocks (nested radicals)"},
             "thorough": {"n": "3,4", "steps": "all incl. breakdown", "init": "n=2,3 all vectors incl. tolerance obligations", "compress": "n=3,4", "two-step breakdown": "n=4"}},
     outside=[ROUNDING + " (so loss of orthogonality, the adequacy of eps-level thresholds and ||V'V-I||~1 on rank-deficient inputs are not visible)", "double-shift compress (C08 covers DoubleShiftQR itself)",
              "sequences of more than one step are covered by induction only under exact arithmetic", "complex Hermitian scalars"],
@@ -415,7 +422,7 @@ SPECS["C11"] = dict(
 def c03_jobs(tier):
     if tier == "quick":
         return [dict(harness="c03_geigs", pattern=r"/n2$|^backtransform/.*/nev[12]/|^lemma", label="operators n=2, back-transformations nev<=2", deadline=250, sanitize=True),
-                dict(harness="c07_krylov", pattern=r"^lanczos-bstep/n3", label="B-inner product Lanczos step (shared with C07)", deadline=100),
+                dict(harness="c07_krylov", pattern=r"^lanczos-bstep/n3|^lanczos-bstep-breakdown/", label="B-inner product Lanczos step and breakdown restart (shared with C07)", deadline=100),
                 dict(harness="c11_ops", pattern=r"^SymShiftInvert/(dd|ss)/(LU|UL)/n2$|^(Dense|Sparse)Cholesky/upper/col/n2$|^SparseRegularInverse/.*/n2$", label="wrappers in non-default triangle options (shared with C11)", deadline=200)]
     return c03_jobs("quick") + [dict(harness="c03_geigs", pattern=r"/n3$|^backtransform/.*/nev3/", label="operators n=3, back-transformations nev=3 [budgeted]", deadline=1200, sanitize=True, budget=True),
             dict(harness="c07_krylov", pattern=r"^lanczos-bstep/n4", label="B-inner product Lanczos steps n=4 [budgeted]", deadline=600, budget=True)]
